@@ -704,6 +704,10 @@ def check(ctx, rep):
              "text in its constructor; a TypeError/ValueError from there escapes every handle() and leaves the client without a reply)", floor=1)
     from .c12 import notfound_text_obligations
     notfound_text_obligations(ctx, rep, "R03l")
+    rep.rule("R03o", "= R05d (mailboxes): a message number a folder can list is looked up by stepping through the mailbox the way the folder counted - "
+             "with the same total operations (no index arithmetic that can fail for a number no folder has)", floor=0)
+    from .c05 import folder_message_evaluation
+    folder_message_evaluation(ctx, rep, "R03o")
     rep.rule("R03n", "= R10e: what a listing request leaves behind for later requests (the cached entries) is the entries themselves, pickled "
              "completely - a cached answer is then the answer that would be generated afresh", floor=1)
     from .c10 import complete_pickling_obligations
